@@ -81,6 +81,12 @@ func (e *c16env) newTrx(contract bool) *c16trx {
 		if e.rng.Intn(2) == 0 {
 			sp = spice.Melange{}
 		}
+		if e.seq%5 == 3 {
+			// data is data, whatever it reads like: a line end, blanks and tabs, a single zero byte (with spice: there is
+			// something to seal either way)
+			data = [][]byte{[]byte("\n"), []byte(" \t\r\n "), {0}, []byte(" ")}[(e.seq/5)%4]
+			sp = spice.Melange{SupplementaryCurrency: uint64(1 + e.seq%100)}
+		}
 	}
 	t := ledger.ForgeTrx(from, to.Addr, fmt.Sprintf("s%d", e.seq), data, sp, time.Now().Add(-time.Minute).Add(time.Duration(e.seq)*time.Microsecond))
 	p, _ := transformers.TrxToProtoTrx(t)
